@@ -87,10 +87,20 @@ Dec4(n) == <<48 + (n \div 1000), 48 + ((n \div 100) % 10), 48 + ((n \div 10) % 1
 FormatDate(d) == Dec4(d[1]) \o <<45>> \o Dec2(d[2]) \o <<45>> \o Dec2(d[3]) \o <<84>> \o Dec2(d[4]) \o <<58>> \o Dec2(d[5]) \o <<58>> \o Dec2(d[6])
 FormatInfo(loc, d) == Header \o <<10>> \o KeyPath \o Escape(loc) \o <<10>> \o KeyDate \o FormatDate(d) \o <<10>>
 
+\* the syntax the trash specification takes from the Desktop Entry format: after the group header every line is blank, a
+\* comment, or Key=Value; a key appears once (a reader that takes the LAST assignment must read the same as one that takes
+\* the first)
+KeyValueSyntax(c) ==
+  LET ls == Lines(c) IN
+  /\ \A i \in 2 .. Len(ls) : ls[i] = << >> \/ ls[i][1] = 35 \/ \E k \in 2 .. Len(ls[i]) : ls[i][k] = 61
+  /\ Cardinality({i \in 1 .. Len(ls) : StartsWith(ls[i], KeyPath)}) <= 1
+  /\ Cardinality({i \in 1 .. Len(ls) : StartsWith(ls[i], KeyDate)}) <= 1
+
 \* what a .trashinfo must look like when trash-put wrote it for location loc (absolute, or relative to $topdir) at date d
 WellFormed(c, loc, d) ==
   LET ls == Lines(c) IN
   /\ Len(ls) >= 3 /\ ls[1] = Header
+  /\ KeyValueSyntax(c)
   /\ LET pv == FirstValue(c, KeyPath) IN
        /\ pv # NoValue /\ EscapedOK(pv) /\ Unescape(pv) = loc
   /\ ParseDate(c) = d
